@@ -84,7 +84,7 @@ def gen_cases(run, thorough):
                     cases.append("A %s/%s %d %d %s" % (sc, tail, ez, ei, hx(buf)))
     # ---- every behaviour at every early call index (single fault), several buffer / caller sizes
     for q in (0, 1, 2, 5, 9):
-        for i in range(0, 10 if not thorough else 24):
+        for i in range(0, 10 if not thorough else 40):
             for b in ("S1", "S3", "Z", "I", "E5"):
                 sc = ",".join(["F"] * i + [b]) + "/F"
                 for staging, sizes in ((1, "17/17/4000"), (64, "0,1,0,2/4096/200"), (257, "3/70000/50"), (4096, "1/1/4000")):
@@ -114,7 +114,7 @@ def gen_cases(run, thorough):
         cases.append("W %d 22 8 /Z w%s,f,f,f,f,c" % (q, hx(HELLO * 4)))
         cases.append("R %d 22 64 %s /S1 0,0,1,0/1/4000" % (q, hx(HELLO * 4)))
     # ---- PRNG: long scripts, all qualities, buffer sizes incl. 1 and the 0 -> 4096 default, caller sizes incl. 0
-    nrand = 6000 if thorough else 900
+    nrand = 40000 if thorough else 900
     for _ in range(nrand):
         name = rng.choice(names)
         data = pool[name]
@@ -288,10 +288,6 @@ def reached_nontrivial(case, impl):
         if t[3] == "1" or t[4] == "1":
             hit.add("buffer-1")
     return hit
-
-
-def canon_cmp(s):
-    return s
 
 
 def builds(run):
